@@ -165,6 +165,46 @@ fn nan_rhs_not_success() -> Option<String> {
     None
 }
 
+
+/// C06/C19: the per-step interpolant handed to a callback spans exactly the accepted step [xold, x]
+/// (Radau: also after a step size reduction decided inside the Newton iteration)
+fn radau_interpolant_interval() -> Option<String> {
+    use ivp::methods::RADAU;
+    use ivp::solout::SolOut;
+    struct Vdp { mu: f64 }
+    impl IVP for Vdp {
+        fn ode(&self, _t: f64, y: &[f64], d: &mut [f64]) { d[0] = y[1]; d[1] = self.mu * ((1.0 - y[0] * y[0]) * y[1]) - y[0]; }
+    }
+    struct Probe { bad: Option<String>, steps: usize }
+    impl SolOut for Probe {
+        fn solout(&mut self, xold: f64, x: &mut f64, y: &mut [f64], interp: Option<&StepInterpolant<'_>>) -> ControlFlag {
+            if let Some(ip) = interp {
+                self.steps += 1;
+                let (xo, h) = ip.step_params();
+                let right = xo + h;
+                if self.bad.is_none() && (xo != xold || (right - *x).abs() > 1e-12 * (1.0 + x.abs())) {
+                    let mut yi = vec![0.0; y.len()];
+                    ip.interpolate(*x, &mut yi);
+                    self.bad = Some(format!("step {}: callback for the step [{:e}, {:e}] got an interpolant for [{:e}, {:e}] (h = {:e}, x - xold = {:e}); interpolant at x = {:?}, state = {:?}",
+                        self.steps, xold, *x, xo, right, h, *x - xold, yi, y.to_vec()));
+                }
+            }
+            ControlFlag::Continue
+        }
+    }
+    for mu in [1.0, 10.0, 100.0, 1000.0, 1e4] {
+        for (rt, at) in [(1e-3, 1e-6), (1e-6, 1e-9), (1e-9, 1e-12)] {
+            for nit in [7usize, 5, 4, 3] {
+                let f = Vdp { mu };
+                let mut p = Probe { bad: None, steps: 0 };
+                let _ = RADAU::builder().dense_output(true).newton_maxiter(nit).build().solve(&f, 0.0, &[2.0, 0.0], 3.0 * mu.max(2.0), rt.into(), at.into(), Some(&mut p));
+                if let Some(b) = p.bad { return Some(format!("RADAU van der Pol mu={} rtol={:e} atol={:e} newton_maxiter={}: {}", mu, rt, at, nit, b)); }
+            }
+        }
+    }
+    None
+}
+
 fn main() {
     let which = std::env::args().nth(1).unwrap_or_default();
     let r = match which.as_str() {
@@ -175,6 +215,7 @@ fn main() {
         "default_mass" => default_mass(),
         "matrix_dense_model" => matrix_dense_model(),
         "rk4_overshoot" => rk4_overshoot(),
+        "radau_interpolant_interval" => radau_interpolant_interval(),
         "event_interpolant_right_end" => event_interpolant_right_end(),
         _ => { println!("unknown scenario {}", which); std::process::exit(2); }
     };
